@@ -851,6 +851,16 @@ def apiRoutes : List (String × String × String) :=
     ("POST", "/sign-ssh", "SSHSign"),
     ("GET", "/ssh/get-hosts", "SSHGetHosts") ]
 
+/-- the `provisioner.Method` constants each token handler of package `api` puts into the request
+    context, in source order; re-derived from the source on every run -/
+def handlerMethods : List (String × List String) :=
+  [ ("Sign", ["SignMethod"]),
+    ("SSHSign", ["SSHSignMethod", "SignIdentityMethod"]),
+    ("SSHRenew", ["SSHRenewMethod"]),
+    ("SSHRekey", ["SSHRekeyMethod"]),
+    ("SSHRevoke", ["SSHRevokeMethod"]),
+    ("Revoke", ["RevokeMethod"]) ]
+
 mutual
 partial def Fl.show : Fl → String
   | .call n g => "C(" ++ n ++ ")" ++ (match g with | .none => "" | .returns => "!" | .other => "?")
